@@ -356,12 +356,20 @@ class Writer(BaseValidator):
         assert self._delegated_writer is not None
 
         _verif.emit("write_begin", self, row_to_write)
-        if self.location.line >= self._header:
-            self.validate_row(row_to_write)
-        if self.cid.data_format.format == data.FORMAT_FIXED:
+        is_fixed = self.cid.data_format.format == data.FORMAT_FIXED
+        if (
+            is_fixed
+            and len(row_to_write) == len(self.cid.field_formats)
+            and all(isinstance(item, str) for item in row_to_write)
+        ):
+            # Validate the row as it is going to be written and consequently read, including the padding.
             actual_row_to_write = self._padded_fixed_row(row_to_write)
         else:
             actual_row_to_write = row_to_write
+        if self.location.line >= self._header:
+            self.validate_row(actual_row_to_write)
+        if is_fixed and actual_row_to_write is row_to_write:
+            actual_row_to_write = self._padded_fixed_row(row_to_write)
         self._delegated_writer.write_row(actual_row_to_write)
         _verif.emit("write_end", self)
 
